@@ -100,9 +100,60 @@ class Live:
         p = os.path.join(self.cwd, 'c20.case')
         with open(p, 'w') as f:
             f.write(text)
+        helper = os.path.join(self.cwd, 'existing-source-file.py')
+        if not os.path.exists(helper):
+            with open(helper, 'w') as f:
+                f.write('pass\n')
         r = self.main([p])
         for d in os.listdir(self.sandbox):
             shutil.rmtree(os.path.join(self.sandbox, d), ignore_errors=True)
+        return r
+
+    # --- the ways of running ONE test case -------------------------------------------------
+    MODES = ('exactly CASE', 'exactly --act CASE', 'exactly --keep CASE', 'exactly --suite SUITE CASE',
+             'exactly CASE (exactly.suite in its directory)', 'exactly suite SUITE (SUITE lists CASE)', 'exactly symbol CASE')
+
+    def run_case_text_in_mode(self, mode, text):
+        """Run the case `text` in one of the ways a user can have a case processed."""
+        k = self.MODES.index(mode)
+        if k == 0:
+            return self.run_case_text(text)
+        d = os.path.join(self.root, 'mode%d' % k)
+        os.makedirs(d, exist_ok=True)
+        case = os.path.join(d, 'c20.case')
+        with open(case, 'w') as f:
+            f.write(text)
+        helper = os.path.join(d, 'existing-source-file.py')
+        if not os.path.exists(helper):
+            with open(helper, 'w') as f:
+                f.write('pass\n')
+        if k == 1:
+            argv = ['--act', case]
+        elif k == 2:
+            argv = ['--keep', case]
+        elif k == 3:
+            s = os.path.join(d, 'other.suite')
+            open(s, 'w').close()
+            argv = ['--suite', s, case]
+        elif k == 4:
+            open(os.path.join(d, 'exactly.suite'), 'w').close()
+            argv = [case]
+        elif k == 5:
+            s = os.path.join(d, 'listing.suite')
+            with open(s, 'w') as f:
+                f.write('[cases]\nc20.case\n')
+            argv = ['suite', s]
+        else:
+            argv = ['symbol', case]
+        old = tempfile.tempdir
+        tempfile.tempdir = self.sandbox  # `exactly suite` makes its sandboxes under the default temp dir
+        try:
+            self.n_runs += 1
+            r = impl.run_main(self.mp, argv, d, self.scratch)
+        finally:
+            tempfile.tempdir = old
+        for x in os.listdir(self.sandbox):
+            shutil.rmtree(os.path.join(self.sandbox, x), ignore_errors=True)
         return r
 
     def run_suite_text(self, text, extra_args=()):
@@ -261,6 +312,36 @@ class Inventory:
     pass
 
 
+# Name-agnostic argument forms: tried in order until the case PASSes stand-alone.  A name without a passing form is
+# simply not probed in the other ways of running (never an alarm).
+ARG_FORMS = ['', '= .', '= PASS', '= null', '= 5', '= "text"', 'true', '.', '% true', 'C20_A = a', 'string C20_A = a',
+             'c20-new-file', 'c20.case', '== 0', 'is-empty', '. : ! is-empty', 'c20.case : ! is-empty']
+TYPE_VALUE_FORMS = ['a', 'a b', '== 1', 'is-empty', 'type file', 'contents ~ a', '{ }', '% true', '"a"', 'strip', 'f']
+ACTOR_FORMS = [('', ''), ('', '% true'), ('% /venv/bin/python', 'pass'), ('% /venv/bin/python', 'existing-source-file.py')]
+
+
+def _passes(r):
+    return r.exception is None and r.exit_code == 0
+
+
+def complete_use(live, texts):
+    """The first of the candidate case texts that PASSes stand-alone (exit 0), or None."""
+    for t in texts:
+        if _passes(live.run_case_text(t)):
+            return t
+    return None
+
+
+def modes_of_complete_uses(live, uses):
+    """uses: name -> complete case text that passes stand-alone.  For every OTHER way of running a case: the names whose
+    case also exits 0.  [(mode, probed names, accepted names)]"""
+    out = []
+    for mode in Live.MODES[1:]:
+        acc = [n for n, t in uses.items() if _passes(live.run_case_text_in_mode(mode, t))]
+        out.append((mode, list(uses.keys()), acc))
+    return out
+
+
 def entity_registry():
     """(entity type id) -> names of the objects in exactly_lib.definitions.entity.* that carry a cross-reference target
     of that entity type (module level, or inside module-level tuples/lists/dicts)."""
@@ -369,6 +450,13 @@ def build_inventory(live):
             out = _ok(live.help([pn, inv.keywords['instructions']]), 'help %s instructions' % pn).out
             e['help_rendered'] = [n for _, n in rendered_table_rows(out)]
             e['help_rendered_all'] = _rows_under_section_header(listing_all_text, '[%s]' % pn)
+        uses = {}
+        for n in e['accepted']:
+            t = complete_use(live, ['[%s]\n%s %s\n' % (pn, n, a) for a in ARG_FORMS])
+            if t is not None:
+                uses[n] = t
+        e['uses'] = uses
+        e['modes'] = modes_of_complete_uses(live, uses)
         inv.phases.append(e)
 
     # ---- suite sections ---------------------------------------------------------------------
@@ -400,7 +488,9 @@ def build_inventory(live):
         rendered = [n for _, n in rendered_table_rows(_ok(live.help([tid]), 'help ' + tid).out)]
         registered = list(reg.get(tid, []))
         accepted, how = accepted_entities(live, tid, struct, registered)
+        modes, uses = entity_modes(live, tid, accepted, struct)
         inv.entities.append(dict(type=tid, accepted=accepted, how=how, registered=registered, help_struct=struct,
+                                 modes=modes, uses=uses,
                                  help_rendered=rendered))
 
     # ---- help requests ----------------------------------------------------------------------
@@ -494,6 +584,49 @@ def accepted_entities(live, tid, documented, registered):
     raise RuntimeError('entity type %r is new: no way to observe what the program accepts is known (fail-closed)' % tid)
 
 
+def entity_modes(live, tid, accepted, documented):
+    """Per way of running a case (other than stand-alone): which entities are accepted.  Builtin symbols: by the
+    invented-name oracle over all candidates, in each way.  Types, actors, configuration parameters: a complete use that
+    passes stand-alone must exit 0 in each way.  ([(mode, probed, accepted)], {name: case text})"""
+    from exactly_lib.definitions.entity import all_entity_types as aet
+    from exactly_lib.definitions import conf_params
+    if tid == aet.BUILTIN_SYMBOL_ENTITY_TYPE_NAMES.identifier:
+        from exactly_lib.symbol import symbol_syntax
+        cands = []
+        for n in list(documented) + list(accepted):
+            for c in [n] + perturbations(n):
+                if c not in cands and symbol_syntax.is_symbol_name(c):
+                    cands.append(c)
+        text = '[setup]\ndef string C20_PROBE = @[%s]@\n'
+        out = []
+        for mode in Live.MODES[1:]:
+            orc = BogusOracle(lambda n, mode=mode: live.run_case_text_in_mode(mode, text % n), 'builtin symbol, ' + mode)
+            out.append((mode, list(cands), [n for n in cands if orc.accepted(n)]))
+        return out, {n: text % n for n in cands}
+    uses = {}
+    if tid == aet.TYPE_ENTITY_TYPE_NAMES.identifier:
+        for n in accepted:
+            t = complete_use(live, ['[setup]\ndef %s C20_X = %s\n' % (n, v) for v in TYPE_VALUE_FORMS])
+            if t is not None:
+                uses[n] = t
+    elif tid == aet.CONF_PARAM_ENTITY_TYPE_NAMES.identifier:
+        for n in accepted:
+            t = complete_use(live, ['[conf]\n%s %s\n' % (n, a) for a in ARG_FORMS])
+            if t is not None:
+                uses[n] = t
+    elif tid == aet.ACTOR_ENTITY_TYPE_NAMES.identifier:
+        for kw, name in actor_keywords(live, documented):
+            if name in uses:
+                continue
+            t = complete_use(live, ['[conf]\n%s = %s %s\n[act]\n%s\n' % (conf_params.ACTOR, kw, a, act)
+                                    for a, act in ACTOR_FORMS])
+            if t is not None:
+                uses[name] = t
+    else:
+        return [], {}
+    return modes_of_complete_uses(live, uses), uses
+
+
 def directive_recognised(live, name):
     from exactly_lib.processing.parse import instruction_section_element_parser as isep
     from exactly_lib.section_document.element_parsers.instruction_parser_exceptions import UnknownInstructionException
@@ -512,11 +645,22 @@ def directive_recognised(live, name):
 
 
 def accepted_actors(live, documented):
-    """Names of the actors `actor = KEYWORD ...` can select.  Keywords tried: the words of the documented actor names, the
+    names = []
+    for _, n in actor_keywords(live, documented):
+        if n not in names:
+            names.append(n)
+    return names
+
+
+def actor_keywords(live, documented):
+    """[(keyword, name of the actor it selects)] for the keywords `actor = KEYWORD ...` accepts.
+    Names of the actors `actor = KEYWORD ...` can select.  Keywords tried: the words of the documented actor names, the
     keywords the help of the `actor` instruction shows after `=`, and the keys of the parser table if it can be found."""
     from exactly_lib.impls.instructions.configuration.utils import actor_utils
     from exactly_lib.section_document.parse_source import ParseSource
     from exactly_lib.definitions import conf_params
+    if getattr(live, '_actor_kw', None) is not None:
+        return live._actor_kw
     kws = []
     for n in documented:
         kws += n.split() + [n.replace(' ', '-'), n.replace(' ', '_')]
@@ -542,8 +686,8 @@ def accepted_actors(live, documented):
                 continue
         if got is None:
             raise RuntimeError('keyword %r is accepted by `actor =` but no argument form parsed (fail-closed)' % k)
-        if got not in names:
-            names.append(got)
+        names.append((k, got))
+    live._actor_kw = names
     return names
 
 
@@ -634,6 +778,13 @@ def cpairs(pairs):
     return '[' + '; '.join('(%s, %s)' % (cs(a), cs(b)) for a, b in pairs) + ']' if pairs else '(@nil (string * string))'
 
 
+def cmodes(modes):
+    if not modes:
+        return '(@nil mode_obs)'
+    return '[' + ';\n       '.join('{| mo_mode := %s; mo_probed := %s; mo_accepted := %s |}' % (cs(m), csl(pr), csl(ac))
+                                   for m, pr, ac in modes) + ']'
+
+
 def inventory_to_coq(inv):
     kw = inv.keywords
     L = ['(* GENERATED on every run by harness/c20.py from the running program under /repo/src. Do not edit. *)',
@@ -646,9 +797,10 @@ def inventory_to_coq(inv):
     for p in inv.phases:
         ph.append('  {| pi_name := %s; pi_has_dict := %s; pi_dict := %s;\n     pi_accepted := %s; pi_has_help_instr := %s;\n'
                   '     pi_help_struct := %s;\n     pi_help_keys := %s;\n     pi_help_rendered := %s;\n'
-                  '     pi_help_rendered_all := %s |}'
+                  '     pi_help_rendered_all := %s;\n     pi_modes := %s |}'
                   % (cs(p['name']), cbool(p['has_dict']), cpairs(p['dict']), csl(p['accepted']), cbool(p['has_help_instr']),
-                     csl(p['help_struct']), csl(p['help_keys']), csl(p['help_rendered']), csl(p['help_rendered_all'])))
+                     csl(p['help_struct']), csl(p['help_keys']), csl(p['help_rendered']), csl(p['help_rendered_all']),
+                     cmodes(p['modes'])))
     L.append('Definition live_phases : list phase_inv := [\n%s\n].' % ';\n'.join(ph))
     ss = []
     for s in inv.suite_sections:
@@ -660,8 +812,9 @@ def inventory_to_coq(inv):
     es = []
     for e in inv.entities:
         es.append('  (* accepted: %s *)\n  {| ei_type := %s;\n     ei_accepted := %s;\n     ei_help_struct := %s;\n'
-                  '     ei_help_rendered := %s |}'
-                  % (e['how'].replace('*', ''), cs(e['type']), csl(e['accepted']), csl(e['help_struct']), csl(e['help_rendered'])))
+                  '     ei_help_rendered := %s;\n     ei_modes := %s |}'
+                  % (e['how'].replace('*', ''), cs(e['type']), csl(e['accepted']), csl(e['help_struct']), csl(e['help_rendered']),
+                     cmodes(e['modes'])))
     L.append('Definition live_entities : list entity_inv := [\n%s\n].' % ';\n'.join(es))
     rs = []
     for argv, valid, code, nonempty, exc in inv.requests:
@@ -1022,6 +1175,22 @@ def _run(ctx, res, live, sizes=None):
         add('(CHref %s %d)' % (cs(h), ids.count(h)),
             {'kind': 'href', 'href': '#' + h, 'elements_with_that_id': ids.count(h)}, ('href', h))
 
+    # 4b. every way of running a case: the names probed there, so that a violation is reported with the case file
+    for p in inv.phases:
+        for mode, probed, acc in p['modes']:
+            for n in probed:
+                add('(CModeInstr %s %s %s %s)' % (cs(mode), cs(p['name']), cs(n), cbool(n in acc)),
+                    {'kind': 'mode-instruction', 'way_of_running': mode, 'section': p['name'], 'name': n,
+                     'accepted_by_program': n in acc, 'listed_by_help': n in p['help_struct'], 'case_file': p['uses'].get(n)},
+                    ('mode', mode, p['name'], n))
+    for e in inv.entities:
+        for mode, probed, acc in e['modes']:
+            for n in probed:
+                add('(CModeEntity %s %s %s %s)' % (cs(mode), cs(e['type']), cs(n), cbool(n in acc)),
+                    {'kind': 'mode-entity', 'way_of_running': mode, 'type': e['type'], 'name': n,
+                     'accepted_by_program': n in acc, 'listed_by_help': n in e['help_struct'], 'case_file': e['uses'].get(n)},
+                    ('mode', mode, e['type'], n))
+
     # 5. HtmlTargetRenderer against its model: the real targets of the inventory and synthetic ones
     for x_term, anchor, js in gen_targets(rng, inv, 60 if quick else 600):
         add('(CTarget %s %s)' % (x_term, cs(anchor)), js, ('target', x_term))
@@ -1029,7 +1198,7 @@ def _run(ctx, res, live, sizes=None):
     res.evaluations = len(terms)
     res.rule = ('distinct cases other than probes with an invented name: help command lines with >= 1 argument '
                 '(enumerated, perturbed, random); (section, instruction name) probes through the real parsers; lookups '
-                'with >= 2 keys; every (entity type, entity) pair; every distinct internal href; every cross-reference target')
+                'with >= 2 keys; every (entity type, entity) pair; every (way of running a case, probed name) pair; every distinct internal href; every cross-reference target')
     res.samples = [meta[i] for i in range(0, len(meta), max(1, len(meta) // 6))][:6]
     res.extra['inventory'] = {
         'phases': {p['name']: len(p['accepted']) for p in inv.phases},
@@ -1061,6 +1230,11 @@ def _explain(js):
     if k == 'entity':
         return ('%s %r: accepted by the program = %r, listed by `exactly help %s` = %r'
                 % (js['type'], js['name'], js['accepted_by_program'], js['type'], js['listed_by_help']))
+    if k in ('mode-instruction', 'mode-entity'):
+        return ('%s %r: `exactly help` lists it = %r, but run as `%s` the program accepts it = %r (stand-alone `exactly CASE` '
+                'accepts the same case file: %r)'
+                % (js.get('type') or 'instruction of [%s]' % js.get('section'), js['name'], js['listed_by_help'],
+                   js['way_of_running'], js['accepted_by_program'], js['case_file']))
     if k == 'href':
         return 'internal link %s of `exactly help htmldoc` has %d target elements' % (js['href'], js['elements_with_that_id'])
     return 'value_lookup.lookup does not find a key by its own name'
@@ -1104,6 +1278,10 @@ def replay(ctx, payload):
             vals, raw = common.coq_eval_terms('C20', ['Model.Help'], ['lookup (%s)%%string (%s)%%string'
                                                                       % (cs(case['pattern']), csl(case['keys']))], tag='replay')
             print('model: %s' % (vals or raw[-300:]))
+        elif k in ('mode-instruction', 'mode-entity'):
+            for mode in Live.MODES:
+                r = live.run_case_text_in_mode(mode, case['case_file'])
+                print('%-50s exit %r  %s' % (mode, r.exit_code, ' '.join((r.out + ' ' + r.err).split())[:160]))
         elif k in ('entity', 'href'):
             inv = build_inventory(live)
             if k == 'entity':
